@@ -104,7 +104,8 @@ def build_table(case, rows=None):
 
 def render(case, model, t, xn, yn, pmap):
     from photutils.datasets import make_model_image
-    ms = None if case['per_row_shape'] else tuple(case['model_shape'])
+    ms = None if (case['per_row_shape'] or case.get('bbox_shape')) \
+        else tuple(case['model_shape'])
     kw = {}
     if case['method'] != 'center':
         kw['discretize_method'] = case['method']
@@ -135,6 +136,12 @@ def oracle(case, rows, pnames, xn, yn):
                 v = v * u.Jy
             setattr(m, p, v)
         sh = tuple(r['shape']) if case['per_row_shape'] else tuple(case['model_shape'])
+        if case.get('bbox_shape') and not case['per_row_shape']:
+            # no model_shape anywhere: the window is the bounding box of the
+            # model *with this row's parameters* (documented: ceil of extents)
+            bb = m.bounding_box.bounding_box()
+            sh = (int(np.ceil(value(bb[0][1]) - value(bb[0][0]))),
+                  int(np.ceil(value(bb[1][1]) - value(bb[1][0]))))
         try:
             sl, _ = overlap_slices(shape, sh, (r['y'], r['x']), mode='trim')
         except NoOverlapError:
@@ -271,7 +278,9 @@ def render_cases(draw):
             'local_bkg': draw(st.booleans()),
             'xcol': draw(st.sampled_from([None, None, 'xcen'])),
             'ycol': draw(st.sampled_from([None, None, 'ycen'])),
-            'alias': draw(st.sampled_from([None, None] + pnames[:1])),
+            'alias': draw(st.sampled_from([None, None] + pnames)),
+            'bbox_shape': kind in ('gauss2d', 'gauss2d_unit', 'gausspsf', 'circprf')
+            and draw(st.booleans()),
             'collide': draw(st.booleans()),
             'method': draw(st.sampled_from(['center'] * 6 + ['oversample', 'interp'])),
             'perm': draw(st.lists(st.integers(0, 9), min_size=1, max_size=8)),
